@@ -56,7 +56,7 @@ var (
 	}
 	mod10 = [...]uint64{
 		0, 10, 100, 1000, 10000, 100000, 1000000,
-		10000000, 100000000, 1000000000, 1000000000,
+		10000000, 100000000, 1000000000, 10000000000,
 	}
 )
 
